@@ -14,10 +14,11 @@ def build(v, suite, ops, rnd, tier, h, d):
             root = tdb.root(tname)
             present = [tdb.entries[i - 1]["rowid"] for i in tdb.order[root]]
             bset = bf.table_boundary_rowids(tdb, root)
-            if len(present) <= (120 if tier == "quick" else 1500):
+            lim = 120 if tier == "quick" else 600
+            if len(present) <= lim:
                 chosen = set(present)
             else:
-                chosen = set(bset) | set(rnd.sample(present, 120 if tier == "quick" else 1500))
+                chosen = set(bset) | set(rnd.sample(present, lim))
             cand = set()
             for r in chosen | bset | set(s["desc"]["deleted"] if tname == "r" else []):
                 cand.update(x for x in (r - 1, r, r + 1) if I64MIN <= x <= I64MAX)
